@@ -804,6 +804,7 @@ func codecBlockCase(c *Ctx, b *nom.AccountBlock) {
 		codecRlpTree(c, data, "canonical")
 		v, kind := rlpVariant(c, data)
 		codecRlpTree(c, v, kind)
+		codecRlpTyped(c, b, data)
 	}
 	if data, err := b.Serialize(); err == nil && len(data) < 6000 {
 		codecDecodeBlock(c, data, "canonical")
@@ -1170,6 +1171,7 @@ func init() {
 		// fixed corner cases first
 		zero := &nom.AccountBlock{}
 		codecBlockCase(c, zero)
+		codecJsonModel(c, zero)
 		for _, a := range []*big.Int{nil, big.NewInt(0), big.NewInt(1), new(big.Int).Sub(pow2(255), big.NewInt(1)), pow2(255),
 			new(big.Int).Sub(pow2(256), big.NewInt(1)), pow2(256), new(big.Int).Add(pow2(256), big.NewInt(1)), big.NewInt(-1)} {
 			for bt := uint64(1); bt <= 5; bt++ {
@@ -1177,9 +1179,11 @@ func init() {
 				b.BlockType, b.Amount = bt, a
 				b.Hash = safeABHash(b)
 				codecBlockCase(c, b)
+				codecJsonModel(c, b)
 			}
 		}
 		codecMomentumCase(c, &nom.Momentum{}, nil)
+		codecJsonModelMomentum(c, &nom.Momentum{})
 		for i := 0; i < c.N; i++ {
 			if i%2500 == 100 || (i == c.N-1 && c.N <= 100) {
 				codecPublishNode(c) // a real node: blocks published through the JSON of the RPC are stored byte for byte
@@ -1194,8 +1198,11 @@ func init() {
 					blocks = append(blocks, b)
 				}
 				codecMomentumCase(c, m, blocks)
+				codecJsonModelMomentum(c, m)
 			default:
-				codecBlockCase(c, cRandBlock(c, 3, i%4 == 3))
+				rb := cRandBlock(c, 3, i%4 == 3)
+				codecBlockCase(c, rb)
+				codecJsonModel(c, rb)
 			}
 			if i%3 == 0 {
 				a := cRandAmount(c, true)
